@@ -549,6 +549,18 @@ func (fl *Flow) transfer(n *GNode, st *State) {
 				if o == nil {
 					continue
 				}
+				if isBool(o.Type()) {
+					// a bool local defined by an expression the state decides (e.g. under the
+					// rule's assumptions): `on := a.x || a.y` is known when a.x is assumed
+					if _, plain := ast.Unparen(s.Rhs[i]).(*ast.Ident); !plain {
+						if t := eval3(c, fl.Spec, s.Rhs[i], st, nil); t != Unknown {
+							lits = append(lits, struct {
+								o types.Object
+								v Tri
+							}{o, t})
+						}
+					}
+				}
 				switch r := ast.Unparen(s.Rhs[i]).(type) {
 				case *ast.Ident:
 					if ro := info.ObjectOf(r); ro != nil {
